@@ -227,7 +227,7 @@ class HistScanner(UDSScanner):
         env.active[_task()] = call
         env.rec(e="Call", i=i, req=pdu_hex, impl=bool(self.ecu.implicit_logging), ana=bool(step.get("ana")),
                 st=env.state(), cls=spec["cls"])
-        out, exc, resp = "ret", None, None
+        out, exc = "ret", None
         try:
             await self.ecu.request(req, cfg)
         except asyncio.CancelledError:
@@ -240,7 +240,7 @@ class HistScanner(UDSScanner):
             raise
         finally:
             env.active.pop(_task(), None)
-            env.rec(e="Ret", i=i, out=out, exc=exc, resp=resp, impl=bool(self.ecu.implicit_logging))
+            env.rec(e="Ret", i=i, out=out, exc=exc, impl=bool(self.ecu.implicit_logging))
 
     async def main(self) -> None:
         env = self.env
@@ -264,7 +264,6 @@ class HistScanner(UDSScanner):
                     env.rec(e="Abort", k=0, where="raise")
                     raise RuntimeError("scripted: scanner failed")
                 elif op == "par":
-                    base = n
 
                     async def lane(steps: list[dict[str, Any]], off: int) -> None:
                         for j, st in enumerate(steps):
@@ -275,7 +274,6 @@ class HistScanner(UDSScanner):
                         offs.append(n)
                         n += len(ln)
                     await asyncio.gather(*(lane(ln, off) for ln, off in zip(step["lanes"], offs)))
-                    _ = base
             await env.point("idle")
         finally:
             env.in_main = False
@@ -406,7 +404,6 @@ async def _run_one(hist: list[dict[str, Any]], db: Path, cancel_at: int | None, 
         if h is not None and h.connection is not None:
             # the handler was never closed (cancellation landed inside disconnect): hygiene only
             leftover = True
-            et = h._executor_task
             for t in asyncio.all_tasks():
                 if t is not asyncio.current_task() and not t.done():
                     t.cancel()
@@ -414,7 +411,6 @@ async def _run_one(hist: list[dict[str, Any]], db: Path, cancel_at: int | None, 
                         await t
                     except BaseException:  # noqa: BLE001
                         pass
-            _ = et
             try:
                 await h.connection.close()
             except Exception:  # noqa: BLE001
